@@ -1027,7 +1027,8 @@ func (se *specEnv) methodCall(x *ast.CallExpr, s *ast.SelectorExpr) tv {
 		case "Add":
 			return tv{term: fmt.Sprintf("(mk_time (+ %s %s))", n, arg().term), typ: recv.typ}
 		case "UnixNano":
-			return tv{term: fmt.Sprintf("(- %s %s)", n, unixOffset), typ: types.Typ[types.Int64]}
+			// the same 64-bit wrap-around as the code's UnixNano (times outside 1678..2262)
+			return tv{term: wrapTerm(fmt.Sprintf("(- %s %s)", n, unixOffset), types.Typ[types.Int64]), typ: types.Typ[types.Int64]}
 		}
 	}
 	return se.fail("unsupported method call %s in spec", exprString(x))
